@@ -209,9 +209,17 @@ Definition begin_item (i : recv_input) (b : begin) : option item :=
 Definition uses_sidecar (i : recv_input) (b : begin) (it : item) : bool :=
   r_resume i && (0 <? b_chunk b) && (negb (is_empty (it_id it)) || (0 <? b_size b)).
 
+(* a receive without resume removes the item's metadata files when it re-creates the data file
+   (stale-data rule, since fix cc27423) *)
+Definition plain_meta_ops (i : recv_input) (it : item) : list (op * list Z) :=
+  if negb (r_resume i) && negb (is_empty (it_id it))
+  then map (fun d => (ORemove, sidecar_path d [] (sidecar_identifier it))) (sidecar_homes i)
+  else [].
+
 Definition begin_ops (i : recv_input) (b : begin) (it : item) : list (op * list Z) :=
   let fp := join [base_dir i; b_rel b] in
   [(OMkdirAll, dir fp); (OOpenCreate, fp); (OTruncate, fp); (OWriteAt, fp)] ++
+  plain_meta_ops i it ++
   (if uses_sidecar i b it then sidecar_ops i (sidecar_identifier it) else []).
 
 (* a FileBegin that fails its checks ends the receive *)
